@@ -111,6 +111,16 @@ def target_of(hw, mode):
     raise ValueError("the correction register is never written")
 
 
+def creator_corrects(hw, mode):
+    """Does the CREATOR side emit Bell corrections on this path? Read off the real emission of
+    `create_keep` (two pairs)."""
+    from harness import bell as H
+    out = H.emit(dict(hw=hw, api="create_keep", mode=mode, n=2, live=0, post="none"))
+    if not any(c.startswith("create_epr") for c in out["cmds"]):
+        raise ValueError(f"create_keep on {hw}/{mode} emits no create_epr")
+    return any(c.startswith("rot_") for c in out["cmds"])
+
+
 def generate():
     be, bld, qc = _imports()
     BS = qc.BellState
@@ -131,6 +141,14 @@ def generate():
     lines.append(f"def targetPostNV : Target := {target_of('nv', 'seq')}")
     lines.append(f"def targetMove : Target := {target_of('nv', 'plain')}")
     lines.append("def data : Data := ⟨singlePair, layout, targetWaitAll, targetPost, targetMove⟩")
+
+    def lb(v):
+        return "true" if v else "false"
+    cw = creator_corrects("generic", "plain")
+    cp = creator_corrects("generic", "seq") or creator_corrects("generic", "post") or creator_corrects("nv", "seq")
+    cm = creator_corrects("nv", "plain")
+    lines.append("/-- does `create_keep` emit Bell corrections on the wait-all / post-routine / move path -/")
+    lines.append(f"def creatorData : CreatorData := ⟨{lb(cw)}, {lb(cp)}, {lb(cm)}⟩")
     # ---- bases
     B = be.EprMeasBasis
     names = [m.name for m in B]
@@ -208,4 +226,4 @@ def generate():
     common.write_if_changed(OUT, "\n".join(lines) + "\n")
     return ["Gen.Corrections: singlePair", "Gen.Corrections: postTable (48 rows)",
             "Gen.Corrections: postOffTable (48 rows)", "Gen.Corrections: targets per path",
-            "Gen.Corrections: bases"]
+            "Gen.Corrections: bases", "Gen.Corrections: creatorData"]
